@@ -26,6 +26,9 @@ type Config struct {
 	Fork int64 // -1: no second log; otherwise records [0,Fork) are common to A and B
 	NB   int64 // records in log B (>= Fork)
 	Seed int64
+	// Twins: every record 7k+6 is for the module "proxy.example/" + the path of record 7k+3, at the same
+	// version: its text contains the other record's "path version " prefix in the middle of its lines.
+	Twins bool
 }
 
 type ModVer struct{ Path, Version string }
@@ -127,14 +130,21 @@ func New(cfg Config) *World {
 	w.keyHash = binary.BigEndian.Uint32(h.Sum(nil))
 	w.VKey = fmt.Sprintf("%s+%08x+%s", w.Name, w.keyHash, base64.StdEncoding.EncodeToString(pubkey))
 	w.A = newLog()
+	modFor := func(i int64) ModVer {
+		if cfg.Twins && i%7 == 6 {
+			of := ModFor(i - 3)
+			return ModVer{"proxy.example/" + of.Path, of.Version}
+		}
+		return ModFor(i)
+	}
 	for i := int64(0); i < cfg.NA; i++ {
-		m := ModFor(i)
+		m := modFor(i)
 		w.A.add(m, recordText(m, ""))
 	}
 	if cfg.Fork >= 0 {
 		w.B = newLog()
 		for i := int64(0); i < cfg.NB; i++ {
-			m := ModFor(i)
+			m := modFor(i)
 			switch {
 			case i < cfg.Fork:
 				w.B.add(m, recordText(m, ""))
